@@ -36,7 +36,22 @@ KNOBS = {
 
 
 def gen(rs: int, tier: str, index: int) -> dict:
-    return gen_worker_script(rs, tier_knobs(KNOBS, tier, index))
+    s = gen_worker_script(rs, tier_knobs(KNOBS, tier, index))
+    from sim.rng import stream
+    r = stream(rs, "c10shared")
+    if r.random() < 0.2 and s["messages"]:
+        # a task declared on the shared broker (async_shared_broker.task) and sent through the default broker: the same hooks,
+        # in the same order, must run around these sends
+        s["late_tasks"] = [{"name": "shared0", "at_us": 0, "ctx": r.random() < 0.5, "sync": False, "deps": [], "root": []}]
+        for m in s["messages"]:
+            if m.get("kind", "valid") == "valid" and r.random() < 0.6:
+                m["task_name"] = "shared0"
+                m["via_default_broker"] = True
+                m["send_at_us"] = max(m["send_at_us"], 1)
+                m.pop("pool_delay_us", None)
+                m.pop("dep_us", None)
+                m.pop("dep_fail", None)
+    return s
 
 
 def mw_with(script: dict, hook: str) -> List[int]:
@@ -159,7 +174,7 @@ def oracle(script: dict, run: Any) -> List[Violation]:
 def probes(script: dict, run: Any) -> Dict[str, int]:
     h = Hist(run)
     mws = script["config"].get("middlewares", [])
-    res = {"stack_of_3": int(len(mws) == 3), "kick_failed": int(bool(h.kind("kick_fail"))),
+    res = {"shared_task_sent_through_default_broker": int(bool(script.get("late_tasks"))), "stack_of_3": int(len(mws) == 3), "kick_failed": int(bool(h.kind("kick_fail"))),
            "on_error_ran": int(any(e[5]["hook"] == "on_error" for e in h.kind("hook"))),
            "post_save_skipped_after_failed_save": 0, "replacing_hook": 0, "async_hook_suspended": 0}
     for mw in mws:
